@@ -40,7 +40,7 @@ def cache_dir():
     if not os.path.isdir(d):
         os.makedirs(CACHE, exist_ok=True)
         # bound the disk use: keep the four most recently used keys (a concurrent run on another tree may still be using its key)
-        others = sorted((o for o in os.listdir(CACHE) if o != k), key=lambda o: os.path.getmtime(os.path.join(CACHE, o)), reverse=True)
+        others = sorted((o for o in os.listdir(CACHE) if o != k and not o.startswith('_')), key=lambda o: os.path.getmtime(os.path.join(CACHE, o)), reverse=True)
         for o in others[3:]:
             shutil.rmtree(os.path.join(CACHE, o), ignore_errors=True)
         os.makedirs(d, exist_ok=True)
@@ -49,6 +49,18 @@ def cache_dir():
             os.utime(d, None)
         except OSError:
             pass
+    return d
+
+
+def shared_dir(kind, paths):
+    """cache directory for artefacts that depend on the framework's own runtimes only (not on /repo): shared by all source keys"""
+    h = hashlib.sha1()
+    for fn in sorted(paths):
+        h.update(fn.encode())
+        with open(fn, 'rb') as f:
+            h.update(hashlib.sha1(f.read()).digest())
+    d = os.path.join(CACHE, '_%s_%s' % (kind, h.hexdigest()[:12]))
+    os.makedirs(d, exist_ok=True)
     return d
 
 
